@@ -415,6 +415,10 @@ def case_solve(log, nf0, targets, shape=(2, 1, 2, 1), ratios="sym", coincide=(),
         def dec(goal, what, key):
             sym = R.touched()
             v = prove_formula(goal, what + " " + tag)
+            if not v.holds and not v.model:
+                # the goal is a concrete False on this path: a point of the path (its scale coincidences) is the counterexample
+                _rs, pt = S.reachable()
+                v.model = pt or None
             decide(v, key, (MOD, "replay_solve", kw), sampler=lambda rng: _sampler(rng, len(targets)), nontrivial=sym)
 
         # ---- independent description of what is needed -------------------------------------------
@@ -557,9 +561,10 @@ def _scales_from_point(point, nt, coincide):
     """rational model -> exactly representable linear scales; equal rationals get the identical float."""
     names = ["w1", "w2", "w3", "mu0"] + ["t%d" % i for i in range(nt)]
     q = {}
-    if all(("k%d" % i) in point and ("m%d" % i) in point for i in (4, 5, 6)):
+    if all(("m%d" % i) in point for i in (4, 5, 6)):
+        fixed = {4: 1.0, 5: 2.0, 6: 0.5}  # the ratios of the cases run with ratios="fixed"
         for i, n in zip((4, 5, 6), ("w1", "w2", "w3")):
-            k, m = R.point_value(point, "k%d" % i), R.point_value(point, "m%d" % i)
+            k, m = R.point_value(point, "k%d" % i, fixed[i]), R.point_value(point, "m%d" % i)
             if k is None or m is None:
                 return None
             q[n] = Fraction(k) ** 2 * Fraction(m) ** 2
